@@ -1,2 +1,539 @@
-// Package c05: (not built yet)
+// Package c05: sprints terminate within the configured limits.
 package c05
+
+import (
+	"encoding/json"
+	"errors"
+	"fmt"
+	"strings"
+	"time"
+	"unicode/utf8"
+
+	"github.com/nyaruka/goflow/flows"
+	"github.com/nyaruka/goflow/flows/engine"
+	"github.com/nyaruka/goflow/flows/events"
+	"verif/checks/sm"
+	"verif/mc"
+	"verif/world"
+)
+
+// ---------------------------------------------------------------------------------------------
+// Part 1: step and resume limits over adversarial graphs
+// ---------------------------------------------------------------------------------------------
+
+var quickKinds = []string{"A", "Es", "Est", "Eo", "Eot", "W", "S"}
+var thoroughKinds = []string{"A", "Em", "Es", "Est", "Eo", "Eot", "W", "WT", "S"}
+
+type limits struct{ steps, resumes int }
+
+var limitGrid = []limits{{0, 500}, {1, 500}, {2, 500}, {3, 500}, {7, 500}, {8, 0}, {8, 1}, {8, 2}}
+
+type replayA struct {
+	Part string       `json:"part"`
+	Root world.Root   `json:"root"`
+	Hist []world.Step `json:"history"`
+}
+
+const looseSteps = 100
+
+func runLimits(c *mc.Ctx) {
+	var sets []world.FlowSet
+	if c.Quick() {
+		sets = world.EnumFlowSets(quickKinds, 2, 1)
+	} else {
+		sets = world.EnumFlowSets(thoroughKinds, 2, 1)
+	}
+	idx := 0
+	for i := range sets {
+		for _, tr := range []string{"manual", "msg"} {
+			for _, lim := range limitGrid {
+				idx++
+				if !c.Mine(idx) {
+					continue
+				}
+				if c.Expired() {
+					c.Cap("time budget reached in the step/resume-limit family; every root before the cap was explored completely")
+					return
+				}
+				root := &world.Root{Flows: &sets[i], Trigger: tr, Opt: world.Options{MaxSteps: lim.steps, MaxResumes: lim.resumes, Explicit: true,
+					MaxTemplate: 10000, MaxField: 640, MaxResult: 640}}
+				loose := *root
+				loose.Opt.MaxSteps = looseSteps
+				depth := 1
+				evs := world.Events
+				if lim.resumes < 500 {
+					depth = lim.resumes + 1
+					evs = []string{"msg:a", "msg:zz"}
+				}
+				cfg := sm.Cfg{Depth: depth, Events: evs, Regimes: []bool{true}, ChoiceBound: 0}
+				cfg.Visit = func(t *sm.Trans) bool { return visitLimits(c, t, &loose, lim) }
+				st := sm.Search(root, cfg)
+				c.Inc("roots")
+				c.Add("states", int64(st.States))
+				c.Add("transitions", int64(st.Transitions))
+				c.Add("evaluations", int64(st.Transitions))
+				if st.MaxSprintSteps > 0 {
+					c.Inc("distinct_nontrivial")
+				}
+				c.Max(fmt.Sprintf("max_steps_in_a_sprint_under_limit_%d", lim.steps), int64(st.MaxSprintSteps))
+			}
+		}
+	}
+}
+
+func isEngineErr(err error) bool {
+	var ee *engine.Error
+	return errors.As(err, &ee)
+}
+
+func failureTexts(sp flows.Sprint) []string {
+	var out []string
+	if sp == nil {
+		return nil
+	}
+	for _, e := range sp.Events() {
+		if f, ok := e.(*events.FailureEvent); ok {
+			out = append(out, f.Text)
+		}
+	}
+	return out
+}
+
+func visitLimits(c *mc.Ctx, t *sm.Trans, loose *world.Root, lim limits) bool {
+	rp := replayA{Part: "limits", Root: *t.Root, Hist: t.Hist}
+	where := fmt.Sprintf("\nflows: %s\ntrigger=%s MaxStepsPerSprint=%d MaxResumesPerSession=%d history=%s", t.Root.Flows.String(), t.Root.Trigger, lim.steps, lim.resumes, mc.JSON(t.Hist))
+	for _, p := range judgeLimits(c, t, loose, lim, true) {
+		c.Violation(p.Key, p.What+where, rp)
+	}
+	return t.Panic == "" && t.HarnessErr == nil && t.X != nil && t.X.Err == nil
+}
+
+func judgeLimits(c *mc.Ctx, t *sm.Trans, loose *world.Root, lim limits, count bool) []sm.Problem {
+	var ps []sm.Problem
+	add := func(key, what string, args ...any) {
+		ps = append(ps, sm.Problem{Key: key, What: fmt.Sprintf(what, args...)})
+	}
+	if t.HarnessErr != nil {
+		add("harness:"+mc.Hash(t.HarnessErr.Error()), "harness error: %v", t.HarnessErr)
+		return ps
+	}
+	call := "start"
+	if len(t.Hist) > 1 {
+		call = "resume"
+	}
+	if t.Panic != "" {
+		add("panic:"+call+":"+mc.PanicSite(t.Panic), "engine call panicked: %s", t.Panic)
+		return ps
+	}
+	if t.X.Err != nil {
+		if isEngineErr(t.X.Err) {
+			return ps // a rejected resume is C10's subject
+		}
+		add("go-error:"+call+":"+slug(t.X.Err.Error(), 5), "engine call returned a Go error: %v", t.X.Err)
+		return ps
+	}
+	s := t.X.Session
+	n := t.NewSteps()
+	if n > lim.steps {
+		add(fmt.Sprintf("steps:sprint-exceeded-step-limit:by-%d", min(n-lim.steps, 3)), "sprint made %d new steps, MaxStepsPerSprint is %d", n, lim.steps)
+	}
+	ft := failureTexts(t.X.Sprint)
+	hitSteps, hitResumes := false, false
+	for _, f := range ft {
+		if strings.Contains(f, "maximum number of steps") {
+			hitSteps = true
+		}
+		if strings.Contains(f, "maximum number of resumes") {
+			hitResumes = true
+		}
+	}
+	if (hitSteps || hitResumes) && s.Status() != flows.SessionStatusFailed {
+		add("limit-failure-event-but-session-"+string(s.Status()), "a limit failure event was logged but the session is %s", s.Status())
+	}
+	// the same history without a step limit: if that sprint needs more steps than the limit, the
+	// limited sprint must have ended the session as failed with a failure event
+	if lim.steps < looseSteps {
+		lt := sm.Replay(loose, t.Hist)
+		if lt.Panic == "" && lt.HarnessErr == nil && lt.X != nil && lt.X.Err == nil {
+			if ln := lt.NewSteps(); ln > lim.steps {
+				if count {
+					c.Fact("step_limit_reached")
+				}
+				if s.Status() != flows.SessionStatusFailed || !hitSteps {
+					add("steps:limit-reached-but-not-failed:status="+string(s.Status()), "the sprint needs %d steps (limit %d) but the session is %s, step-limit failure event: %v", ln, lim.steps, s.Status(), hitSteps)
+				}
+			}
+		}
+	}
+	// resumes accepted so far
+	if lim.resumes < 500 {
+		accepted := 0
+		x, err := t.Root.Run(t.Hist[:1])
+		if err == nil {
+			for _, st := range t.Hist[1:] {
+				if x.Err != nil && !isEngineErr(x.Err) {
+					break
+				}
+				if err := x.Apply(st); err != nil {
+					break
+				}
+				if x.Err == nil {
+					lim := false
+					for _, f := range failureTexts(x.Sprint) {
+						if strings.Contains(f, "maximum number of resumes") {
+							lim = true
+						}
+					}
+					if !lim {
+						accepted++
+					}
+				}
+			}
+		}
+		if count {
+			c.Max(fmt.Sprintf("max_accepted_resumes_under_limit_%d", lim.resumes), int64(accepted))
+			if hitResumes {
+				c.Fact("resume_limit_reached")
+			}
+		}
+		if accepted > lim.resumes {
+			add("resumes:more-resumes-accepted-than-limit", "%d resumes were accepted, MaxResumesPerSession is %d", accepted, lim.resumes)
+		}
+	}
+	if count {
+		c.Outcome(fmt.Sprintf("limits: status=%s steps<=limit hitSteps=%v hitResumes=%v", s.Status(), hitSteps, hitResumes))
+	}
+	return ps
+}
+
+// ---------------------------------------------------------------------------------------------
+// Part 2: size limits
+// ---------------------------------------------------------------------------------------------
+
+type sizeCase struct {
+	Part     string `json:"part"`
+	Template int    `json:"max_template"`
+	Field    int    `json:"max_field"`
+	Result   int    `json:"max_result"`
+	Unit     string `json:"unit"`
+	Len      int    `json:"len"`
+	Trigger  string `json:"trigger"`
+}
+
+var templateLimits = []int{0, 1, 2, 3, 4, 10, 10000}
+var fieldLimits = []int{0, 1, 4, 640}
+var resultLimits = []int{0, 1, 4, 640}
+
+// units: ASCII, 2-, 3-, 4-byte runes, and a base letter + combining mark (two runes per unit)
+var units = []string{"a", "é", "€", "😀", "é"}
+
+var lengthsQuick = []int{0, 1, 2, 3, 4, 5, 9, 10, 11, 63, 64, 65, 639, 640, 641, 2040, 2060, 9999, 10000, 10001, 30000}
+
+func sizeFlow() world.J {
+	f := 0
+	w := world.J{
+		"uuid": world.NodeUUID(f, 0),
+		"router": world.J{
+			"type": "switch", "operand": "@input.text", "result_name": "Answer", "wait": world.J{"type": "msg"},
+			"cases": []any{world.J{"uuid": world.UUID("c05.case"), "type": "has_only_text", "arguments": []any{"a"}, "category_uuid": world.UUID("c05.cat0")}},
+			"categories": []any{
+				world.J{"uuid": world.UUID("c05.cat0"), "name": "A", "exit_uuid": world.ExitUUID(f, 0, 0)},
+				world.J{"uuid": world.UUID("c05.cat1"), "name": "Other", "exit_uuid": world.ExitUUID(f, 0, 1)},
+			},
+			"default_category_uuid": world.UUID("c05.cat1"),
+		},
+		"exits": []any{
+			world.J{"uuid": world.ExitUUID(f, 0, 0), "destination_uuid": world.NodeUUID(f, 1)},
+			world.J{"uuid": world.ExitUUID(f, 0, 1), "destination_uuid": world.NodeUUID(f, 1)},
+		},
+	}
+	acts := world.J{
+		"uuid": world.NodeUUID(f, 1),
+		"actions": []any{
+			world.J{"uuid": world.ActUUID(f, 1, 0), "type": "send_msg", "text": "@input.text",
+				"attachments":   []any{"image/jpeg:http://example.com/@input.text"},
+				"quick_replies": []any{"@input.text", "yes"}},
+			world.J{"uuid": world.ActUUID(f, 1, 1), "type": "set_contact_name", "name": "@input.text"},
+			world.J{"uuid": world.ActUUID(f, 1, 2), "type": "set_contact_field", "field": world.J{"key": "gender", "name": "Gender"}, "value": "@input.text"},
+			world.J{"uuid": world.ActUUID(f, 1, 3), "type": "set_run_result", "name": "Copy", "value": "@input.text", "category": "Cat"},
+			world.J{"uuid": world.ActUUID(f, 1, 4), "type": "send_msg", "text": "x@(input.text)y@contact.name z@fields.gender r@results.copy.value"},
+			world.J{"uuid": world.ActUUID(f, 1, 6), "type": "send_broadcast", "text": "@input.text", "groups": []any{world.J{"uuid": world.GroupA, "name": "Group A"}}},
+		},
+		"exits": []any{world.J{"uuid": world.ExitUUID(f, 1, 0)}},
+	}
+	return world.J{"uuid": world.FlowUUID(0), "name": "Sizes", "spec_version": "13.5.0", "language": "eng", "type": "messaging", "nodes": []any{w, acts}}
+}
+
+func sizeCases(tier string) []sizeCase {
+	var out []sizeCase
+	for _, tl := range templateLimits {
+		for _, fl := range fieldLimits {
+			for _, rl := range resultLimits {
+				// quick: vary one limit family at a time around the defaults plus the all-small corner
+				if tier == "quick" {
+					nonDefault := 0
+					if tl != 10000 {
+						nonDefault++
+					}
+					if fl != 640 {
+						nonDefault++
+					}
+					if rl != 640 {
+						nonDefault++
+					}
+					if nonDefault > 1 && !(tl == fl && fl == rl) && !(tl <= 4 && fl == rl && fl <= 4) {
+						continue
+					}
+				}
+				for _, u := range units {
+					for _, n := range lengthsQuick {
+						for _, tr := range []string{"resume", "msg"} {
+							out = append(out, sizeCase{Part: "sizes", Template: tl, Field: fl, Result: rl, Unit: u, Len: n, Trigger: tr})
+						}
+					}
+				}
+			}
+		}
+	}
+	return out
+}
+
+func runeLen(s string) int { return utf8.RuneCountInString(s) }
+
+func judgeSize(c *mc.Ctx, sc sizeCase, count bool) []sm.Problem {
+	var ps []sm.Problem
+	add := func(key, what string, args ...any) {
+		ps = append(ps, sm.Problem{Key: key, What: fmt.Sprintf(what, args...)})
+	}
+	input := strings.Repeat(sc.Unit, sc.Len)
+	root := &world.Root{Assets: world.WithFlows(world.BaseAssets(), []any{sizeFlow()}), Trigger: "manual",
+		Opt: world.Options{MaxSteps: 100, MaxResumes: 500, MaxTemplate: sc.Template, MaxField: sc.Field, MaxResult: sc.Result, Explicit: true}}
+	var x *world.Exec
+	var herr error
+	var sprints []flows.Sprint
+	p := mc.Guard(func() {
+		if sc.Trigger == "msg" {
+			root.Trigger = "msg"
+			root.TrigMsg = input
+			if input == "" {
+				root.TrigMsg = " "
+			}
+			x, herr = root.Start(world.Step{})
+			if herr == nil {
+				sprints = append(sprints, x.Sprint)
+			}
+			return
+		}
+		x, herr = root.Start(world.Step{})
+		if herr != nil || x.Err != nil {
+			return
+		}
+		sprints = append(sprints, x.Sprint)
+		herr = x.Apply(world.Step{Ev: "msg:" + input})
+		sprints = append(sprints, x.Sprint)
+	})
+	limClass := func(v int) string {
+		if v < 3 {
+			return fmt.Sprint(v)
+		}
+		return ">=3"
+	}
+	if p != "" {
+		key := "panic:sizes:" + mc.PanicSite(p)
+		// only limits too small to be ordinary take part in the signature
+		if sc.Template < 3 {
+			key += ":max_template=" + limClass(sc.Template)
+		}
+		if sc.Field < 3 {
+			key += ":max_field=" + limClass(sc.Field)
+		}
+		if sc.Result < 3 {
+			key += ":max_result=" + limClass(sc.Result)
+		}
+		add(key, "engine call panicked: %s", p)
+		return ps
+	}
+	if herr != nil {
+		add("harness:"+mc.Hash(herr.Error()), "harness error: %v", herr)
+		return ps
+	}
+	if x.Err != nil {
+		add("go-error:sizes:"+slug(x.Err.Error(), 5), "engine call returned a Go error: %v", x.Err)
+		return ps
+	}
+	checkUTF8 := func(what, s string) {
+		if !utf8.ValidString(s) {
+			add("utf8:invalid:"+what, "%s is not valid UTF-8 after truncation", what)
+		}
+	}
+	for _, sp := range sprints {
+		if sp == nil {
+			continue
+		}
+		for _, e := range sp.Events() {
+			switch ev := e.(type) {
+			case *events.MsgCreatedEvent:
+				m := ev.Msg
+				if m.Templating() == nil && runeLen(m.Text()) > sc.Template {
+					add("size:msg-text-exceeds-max-template-chars", "msg_created text has %d chars, MaxTemplateChars is %d", runeLen(m.Text()), sc.Template)
+				}
+				checkUTF8("msg text", m.Text())
+				for _, q := range m.QuickReplies() {
+					if runeLen(q) > flows.MaxQuickReplyLength {
+						add("size:quick-reply-exceeds-limit", "quick reply has %d chars, limit %d", runeLen(q), flows.MaxQuickReplyLength)
+					}
+					checkUTF8("quick reply", q)
+				}
+				for _, a := range m.Attachments() {
+					if runeLen(string(a)) > flows.MaxAttachmentLength {
+						add("size:attachment-exceeds-limit", "attachment has %d chars, limit %d", runeLen(string(a)), flows.MaxAttachmentLength)
+					}
+				}
+				if count {
+					c.Fact("msg_created")
+					if runeLen(m.Text()) == sc.Template && sc.Len > sc.Template {
+						c.Fact("msg_text_cut_at_limit")
+					}
+				}
+			case *events.ContactNameChangedEvent:
+				if runeLen(ev.Name) > sc.Field {
+					add("size:contact-name-exceeds-max-field-chars", "contact name has %d chars, MaxFieldChars is %d", runeLen(ev.Name), sc.Field)
+				}
+				checkUTF8("contact name", ev.Name)
+				if count {
+					c.Fact("name_changed")
+				}
+			case *events.ContactFieldChangedEvent:
+				if ev.Value != nil {
+					if runeLen(ev.Value.Text.Native()) > sc.Field {
+						add("size:field-text-exceeds-max-field-chars", "field value has %d chars, MaxFieldChars is %d", runeLen(ev.Value.Text.Native()), sc.Field)
+					}
+					checkUTF8("field value", ev.Value.Text.Native())
+					if count {
+						c.Fact("field_changed")
+					}
+				}
+			case *events.RunResultChangedEvent:
+				if runeLen(ev.Value) > sc.Result {
+					add("size:result-value-exceeds-max-result-chars:"+strings.ToLower(ev.Name), "result %s value has %d chars, MaxResultChars is %d", ev.Name, runeLen(ev.Value), sc.Result)
+				}
+				checkUTF8("result value", ev.Value)
+				if count {
+					c.Fact("result_changed")
+				}
+			}
+		}
+	}
+	// the state itself
+	s := x.Session
+	if s.Contact() != nil && runeLen(s.Contact().Name()) > sc.Field && s.Contact().Name() != "Ann" {
+		add("size:stored-contact-name-exceeds-max-field-chars", "stored contact name has %d chars, MaxFieldChars is %d", runeLen(s.Contact().Name()), sc.Field)
+	}
+	for _, r := range s.Runs() {
+		for _, res := range r.Results() {
+			if runeLen(res.Value) > sc.Result {
+				add("size:stored-result-exceeds-max-result-chars:"+strings.ToLower(res.Name), "stored result %s has %d chars, MaxResultChars is %d", res.Name, runeLen(res.Value), sc.Result)
+			}
+		}
+	}
+	if count {
+		c.Outcome(fmt.Sprintf("sizes: status=%s", s.Status()))
+	}
+	return ps
+}
+
+func runSizes(c *mc.Ctx) {
+	cases := sizeCases(c.Tier)
+	for i, sc := range cases {
+		if !c.Mine(i) {
+			continue
+		}
+		if c.Expired() {
+			c.Cap("time budget reached in the size-limit family")
+			return
+		}
+		c.Inc("evaluations")
+		c.Inc("size_cases")
+		c.Inc("transitions")
+		c.Inc("states")
+		if sc.Len > 0 {
+			c.Inc("distinct_nontrivial")
+		}
+		for _, p := range judgeSize(c, sc, true) {
+			c.Violation(p.Key, fmt.Sprintf("%s\nMaxTemplateChars=%d MaxFieldChars=%d MaxResultChars=%d input=%d x %q via %s", p.What, sc.Template, sc.Field, sc.Result, sc.Len, sc.Unit, sc.Trigger), sc)
+		}
+		if c.WantSample() && sc.Len == 4 && sc.Template == 3 {
+			c.Sample(sc)
+		}
+	}
+}
+
+func run(c *mc.Ctx) {
+	runSizes(c)
+	runLimits(c)
+}
+
+func slug(s string, n int) string {
+	f := strings.Fields(s)
+	if len(f) > n {
+		f = f[:n]
+	}
+	out := strings.ToLower(strings.Join(f, "-"))
+	return strings.Map(func(r rune) rune {
+		if (r >= 'a' && r <= 'z') || (r >= '0' && r <= '9') || r == '-' {
+			return r
+		}
+		return -1
+	}, out)
+}
+
+func replayFn(c *mc.Ctx, raw json.RawMessage) (string, bool) {
+	var probe struct {
+		Part string `json:"part"`
+	}
+	json.Unmarshal(raw, &probe)
+	var ps []sm.Problem
+	var desc string
+	if probe.Part == "sizes" {
+		var sc sizeCase
+		json.Unmarshal(raw, &sc)
+		ps = judgeSize(c, sc, false)
+		desc = fmt.Sprintf("size case %+v", sc)
+	} else {
+		var rp replayA
+		if err := json.Unmarshal(raw, &rp); err != nil {
+			return "bad replay: " + err.Error(), false
+		}
+		t := sm.Replay(&rp.Root, rp.Hist)
+		loose := rp.Root
+		loose.Opt.MaxSteps = looseSteps
+		ps = judgeLimits(c, t, &loose, limits{rp.Root.Opt.MaxSteps, rp.Root.Opt.MaxResumes}, false)
+		desc = fmt.Sprintf("flows: %s trigger=%s opt=%+v history=%s", rp.Root.Flows.String(), rp.Root.Trigger, rp.Root.Opt, mc.JSON(rp.Hist))
+	}
+	for _, p := range ps {
+		desc += fmt.Sprintf("\nPROBLEM %s: %s", p.Key, p.What)
+	}
+	return desc, len(ps) > 0
+}
+
+func init() {
+	mc.Register(&mc.Check{
+		ID:    "C05",
+		Level: "model_checking",
+		Rule: "two exhaustively enumerated families on the real engine. (1) limits: every canonical flow set (<= 2(+1) nodes over the adversarial structural alphabet: self loops, A enters B enters A, terminal enters, routers whose default returns to themselves, with/without waits) x {manual,msg} x (MaxStepsPerSprint, MaxResumesPerSession) in {(0..7,500),(8,0..2)}; BFS over resumes; every transition: no panic, no Go error, new steps <= limit, and - by replaying the same history under a loose limit - a sprint that needs more steps must end failed with a failure event; accepted resumes <= limit. " +
+			"(2) sizes: a flow exercising send_msg (text, attachments, quick replies), say_msg, send_broadcast, set_contact_name, set_contact_field, set_run_result and a result-saving wait x MaxTemplateChars {0,1,2,3,4,10,10000} x MaxFieldChars/MaxResultChars {0,1,4,640} x inputs of 21 lengths around every limit x 5 character units (1-4 byte runes, combining mark) x {msg trigger, msg resume}: no panic/Go error, all emitted lengths within limits, valid UTF-8. distinct_nontrivial counts roots that make at least one step and non-empty size inputs.",
+		Assumptions: []string{"negative option values are outside the configuration domain", "quick tier varies one size-limit family at a time plus the all-equal and all-small corners; thorough takes the full product"},
+		Run:         run,
+		Replay:      replayFn,
+		Budget:      map[string]time.Duration{"quick": 4 * time.Minute, "thorough": 25 * time.Minute},
+		Guards: func(r *mc.Result, tier string) []string {
+			var f []string
+			for _, fact := range []string{"step_limit_reached", "resume_limit_reached", "msg_created", "msg_text_cut_at_limit", "name_changed", "field_changed", "result_changed"} {
+				if r.Facts[fact] == 0 {
+					f = append(f, "never observed: "+fact)
+				}
+			}
+			return f
+		},
+	})
+}
